@@ -99,7 +99,14 @@ def scn_compose(ctx):
 
     def client(group):
         for sp in group:
-            sp["f"] = ex.submit(mk(sp["i"]), sp["x"], y=sp["y"])
+            # how the arguments are passed: positional + keyword, keywords only, positional only
+            style = ctx.choice(3, "argstyle%d" % sp["i"]) if p.get("argstyles", True) else 0
+            if style == 0:
+                sp["f"] = ex.submit(mk(sp["i"]), sp["x"], y=sp["y"])
+            elif style == 1:
+                sp["f"] = ex.submit(mk(sp["i"]), x=sp["x"], y=sp["y"])
+            else:
+                sp["f"] = ex.submit(mk(sp["i"]), sp["x"], sp["y"])
 
     groups = [[] for _ in range(nthreads)]
     for sp in subs:
@@ -207,12 +214,14 @@ def plan(tier, seed):
     C = "compose"
     for l1 in LAYERS:
         h = l1 in HEAVY
-        items.append(dict(scenario=C, params=dict(layers=[l1], base="sync", script_len=1 if h else 2), bounds=dict(P=1 if q else 2)))
-        items.append(dict(scenario=C, params=dict(layers=[l1], base="pool", script_len=1, nsub=1 if (q and l1 in ("retry", "timeout")) else 2, threads=1 if (q and l1 in ("retry", "timeout")) else 2), bounds=dict(P=0)))
+        items.append(dict(scenario=C, params=dict(layers=[l1], base="sync", script_len=1 if h else 2, argstyles=not h), bounds=dict(P=1 if q else 2)))
+        if h:
+            items.append(dict(scenario=C, params=dict(layers=[l1], base="sync", script_len=1, nsub=1, threads=1), bounds=dict(P=0)))
+        items.append(dict(scenario=C, params=dict(layers=[l1], base="pool", script_len=1, nsub=1 if (q and l1 in ("retry", "timeout")) else 2, threads=1 if (q and l1 in ("retry", "timeout")) else 2, argstyles=False), bounds=dict(P=0)))
     items.append(dict(scenario=C, params=dict(layers=["retry"], base="sync", script_len=1, nsub=1, threads=1, symbolic_sleep=True), bounds=dict(P=0 if q else 1)))
     for l1, l2 in itertools.product(LAYERS, LAYERS):
         nh = (l1 in HEAVY) + (l2 in HEAVY)
-        items.append(dict(scenario=C, params=dict(layers=[l1, l2], base="sync", script_len=1, nsub=1 if (nh == 2 and q) else 2, threads=1 if (nh == 2 and q) else 2), bounds=dict(P=0)))
+        items.append(dict(scenario=C, params=dict(layers=[l1, l2], base="sync", script_len=1, nsub=1 if (nh == 2 and q) else 2, threads=1 if (nh == 2 and q) else 2, argstyles=False), bounds=dict(P=0)))
         if not q or nh <= 1:
             items.append(dict(scenario=C, params=dict(layers=[l1, l2], base="pool", script_len=1, nsub=1, threads=1), bounds=dict(P=0)))
     items.append(dict(scenario=C, params=dict(layers=["flat_map"], base="pool", flat_async=True, script_len=1), bounds=dict(P=0 if q else 1)))
